@@ -611,8 +611,14 @@ def mat_line(op, nr, nc, d, extra=""):
 SPECIAL = [0.0, -0.0, 1.0, -1.0, float("inf"), float("-inf"), 5e-324, 1.7976931348623157e308, float("nan")]
 
 
+EXACT = [0.5, -0.5, 1.5, 2.5, 1.0 / 3.0, 2.0 / 3.0, 2.0, 3.0, 4.0, 1024.0, 0.25, 2.0 ** -52, 1.0 + 2.0 ** -52, 1.0 - 2.0 ** -53,
+         2.0 - 2.0 ** -52, 2.0 + 2.0 ** -51, 1e-300, -1e-300, 1e300, -1e300, 1e-310, 2.0 ** 500, 2.0 ** -500, -0.0, 0.1, 0.3]
+
+
 def rand_val(rng, structural=True):
     u = rng.random()
+    if u < 0.08:
+        return rng.choice(EXACT)
     if u < 0.55:
         return rng.normal() * 10 ** rng.randint(-2, 2)
     if u < 0.85:
@@ -983,6 +989,209 @@ def gen_sign_strata(rng, lines, cover, n):
                 lines.append(mat_line("eq", r, ln // r, ys))
 
 
+BOUNDARY_N = [1, 2, 3, 4, 5, 7, 8, 9, 15, 16, 17, 31, 32, 33, 63, 64]
+GROW_SHAPES = [(9, 9), (9, 17), (17, 9), (10, 12), (12, 10), (33, 40), (16, 16), (16, 9), (9, 16), (15, 17), (8, 9), (9, 8),
+               (24, 25), (11, 9), (9, 10), (17, 17), (1, 17), (17, 1), (2, 33), (33, 2), (8, 8), (8, 16), (25, 9)]
+
+
+def distinct_data(rng, n, base=0.0):
+    """pairwise distinct values, so that a misplaced or dropped entry is always visible"""
+    off = rng.uniform(0.0, 0.5)
+    return [base + i + off + (0.25 if rng.chance(0.3) else 0.0) for i in range(n)]
+
+
+def grow_session(rng, lines, R, C):
+    """load a small matrix (<= 8x8), grow it to R x C with hrepeat / vrepeat / hcat / vcat only, then transpose
+    through every route; the replies carry the whole data, so any misplaced corner entry shows."""
+    r, c = rng.randint(1, min(8, R)), rng.randint(1, min(8, C))
+    lines.append(mat_line("load", r, c, distinct_data(rng, r * c)))
+    base = 1000.0
+    cols_first = rng.chance(0.5)
+    for phase in (0, 1):
+        grow_cols = (phase == 0) == cols_first
+        while (c < C) if grow_cols else (r < R):
+            cur, tgt = (c, C) if grow_cols else (r, R)
+            if cur * 2 <= tgt and rng.chance(0.6):
+                k = rng.choice([n for n in (2, 3, 4) if cur * n <= tgt])
+                lines.append("%s %d" % ("hrepeat" if grow_cols else "vrepeat", k))
+                cur *= k
+            else:
+                add = rng.randint(1, min(tgt - cur, 8))
+                if grow_cols:
+                    lines.append(mat_line("hcat", r, add, distinct_data(rng, r * add, base)))
+                else:
+                    lines.append(mat_line("vcat", add, c, distinct_data(rng, add * c, base)))
+                base += 1000.0
+                cur += add
+            if grow_cols:
+                c = cur
+            else:
+                r = cur
+    route = rng.randint(0, 3)
+    lines.extend([["t", "t_mut"], ["t_mut", "t"], ["r2c", "c2r"], ["c2r", "t_mut", "r2c"]][route])
+    lines.extend(["diag", "col %d" % rng.randint(0, (C if len([["t", "t_mut"], ["t_mut", "t"], ["r2c", "c2r"], ["c2r", "t_mut", "r2c"]][route]) % 2 == 0 else R) - 1)])
+    if rng.chance(0.5):
+        lines.extend(["reshape -1 %d" % C, "t"])
+
+
+def near_symmetric(rng, n):
+    """square data that is_symmetric() accepts although it is not symmetric"""
+    kind = rng.randint(0, 3)
+    a = [[0.0] * n for _ in range(n)]
+    for i in range(n):
+        for j in range(i, n):
+            if kind == 0:      # values in [0.25, 1): mirror entries one ulp apart
+                v = rng.uniform(0.25, 0.99)
+                a[i][j] = v
+                a[j][i] = v if i == j else math.nextafter(v, rng.choice([0.0, 2.0]))
+            elif kind == 1:    # arbitrary tiny entries (all differences far below EPSILON)
+                a[i][j] = rng.normal() * 1e-17
+                a[j][i] = rng.normal() * 1e-17
+            elif kind == 2:    # subnormals and signed zeros
+                a[i][j] = rng.choice([5e-324, -5e-324, 1e-310, 0.0, -0.0, 3e-320])
+                a[j][i] = rng.choice([5e-324, -5e-324, 1e-310, 0.0, -0.0, 3e-320])
+            else:              # differences exactly EPS/2, EPS (accepted) next to an ordinary symmetric part
+                v = float(rng.randint(-3, 3)) * 0.125
+                a[i][j] = v
+                a[j][i] = v if i == j else v + rng.choice([EPS / 2, EPS, -EPS, EPS / 4]) * (1.0 if abs(v) < 1 else 0.0)
+    return [x for row in a for x in row]
+
+
+def ulp_neighbours(x):
+    return [math.nextafter(x, -math.inf), x, math.nextafter(x, math.inf)]
+
+
+def gen_directed(rng, lines, cover, scale):
+    """Directed strata (tools/GENERIC_STRATA.md): size boundaries of blocked paths, in-place vs copying variants on
+    nearly symmetric squares, near-grid arange stops, tolerance boundaries +-1 ulp, tall/wide triangular shapes."""
+    n0 = len(lines)
+    # A. grow beyond 8x8, then transpose by every route (+ slice-level helpers on the same shapes)
+    shapes = list(GROW_SHAPES)
+    for _ in range(scale * 4):
+        shapes.append((rng.randint(9, 40), rng.randint(9, 33)))
+    for (R, C) in shapes:
+        grow_session(rng, lines, R, C)
+        if rng.chance(0.5):
+            d = distinct_data(rng, R * C)
+            lines.append("%s %d %s" % (rng.choice(["transpose_u", "r2c_u", "c2r_u"]), R, vec(d)))
+    cover["directed:grow_then_transpose"] = len(shapes)
+    # B. t_mut vs t() on squares that pass is_symmetric without being symmetric
+    for _ in range(30 * scale):
+        n = rng.choice([2, 2, 3, 4, 5, 8, 9, 16, 17])
+        d = near_symmetric(rng, n)
+        lines.extend([mat_line("load", n, n, d), "is_sym", "t_mut", "is_sym", "t_mut", mat_line("load", n, n, d), "t", "tovec",
+                      mat_line("eq", n, n, d)])
+    cover["directed:near_symmetric_t_mut"] = 30 * scale
+    # C. arange: stop a hair before / at / past a grid point, both step signs
+    for _ in range(60 * scale):
+        step = rng.choice([0.5, 1.0, 0.1, 0.25, 0.3, 2.0, 1.0 / 3.0, rng.uniform(0.01, 3.0)]) * rng.choice([1, 1, -1])
+        start = rng.choice([0.0, 1.0, 10.0, -2.0, 0.1, rng.uniform(-5, 5)])
+        k = rng.randint(1, 40)
+        for rel in (rng.choice([1e-10, 1e-12, 3e-10, 9e-10, 1e-9, 1.1e-9, 1e-8, 1e-6]), 0.0, -rng.choice([1e-10, 1e-12, 1e-9, 1e-8])):
+            stop = start + k * step + rel * step * rng.choice([1.0, float(k)])
+            lines.append("arange %s %s %s" % (f2h(start), f2h(stop), f2h(step)))
+    for (a, b, st) in [(0.0, 1.0000000001, 0.5), (10.0, 7.9999999999, -1.0), (1.0, 4.0, 0.1), (-2.0, 6.0, 0.2), (0.0, 4.0, 1.0),
+                       (0.0, 0.3, 0.1), (0.0, 0.9, 0.3), (0.0, 1.0, 1.0 / 3.0), (5.0, 0.0, -0.5), (0.0, 2.0 ** 500, 2.0 ** 497),
+                       (0.0, 3e-300, 1e-300), (1e300, 1.5e300, 1e299)]:
+        lines.append("arange %s %s %s" % (f2h(a), f2h(b), f2h(st)))
+    cover["directed:arange_near_grid"] = 180 * scale + 12
+    # D. linspace: n = 1, 2, 3 and block boundaries; special end points; extreme scale
+    for n in BOUNDARY_N:
+        a, b = rng.choice([(0.0, 1.0), (2.0, 2.0), (-0.0, 1.0), (1.0, -1.0), (1.0 / 3.0, 2.0 / 3.0), (-50.0, 40.0), (0.5, 3.0)])
+        lines.append("linspace %s %s %d" % (f2h(a), f2h(b), n))
+        lines.append("linspace %s %s %d" % (f2h(a * 2.0 ** 500), f2h(b * 2.0 ** 500), n))
+        lines.append("linspace %s %s %d" % (f2h(a * 2.0 ** -500), f2h(b * 2.0 ** -500), n))
+    for n in (1, 2):
+        for (a, b) in [(0.0, 1.0), (3.0, 3.0), (-1.0, 1.0), (1e300, -1e300), (5.0, 5.0 + 2.0 ** -50)]:
+            lines.append("linspace %s %s %d" % (f2h(a), f2h(b), n))
+    # E. repeats of row / column vectors, then transposes
+    for _ in range(12 * scale):
+        ln = rng.choice([1, 2, 3, 7, 8, 9, 16, 17])
+        n = rng.choice([1, 2, 3, 7, 8, 9, 16, 17])
+        rowv = rng.chance(0.5)
+        lines.append(mat_line("load", 1 if rowv else ln, ln if rowv else 1, distinct_data(rng, ln)))
+        lines.extend(["%s %d" % (rng.choice(["hrepeat", "vrepeat"]), n), "t_mut", "%s 2" % rng.choice(["hrepeat", "vrepeat"]), "t", "tovec"])
+    # F. reshape / reshape_mut / new / Vector::reshape with -1: divisible and not
+    for size in (1, 2, 6, 7, 12, 16, 36, 63, 64, 65):
+        d = distinct_data(rng, size)
+        lines.append(mat_line("load", 1, size, d))
+        ks = sorted(set([1, 2, 3, 4, 5, 7, 8, 9, size - 1, size, size + 1, 2 * size]) - {0, -1})
+        for k in ks:
+            form = rng.randint(0, 3)
+            op = rng.choice(["reshape", "reshape_mut"])
+            if form == 0:
+                lines.append("%s -1 %d" % (op, k))
+            elif form == 1:
+                lines.append("%s %d -1" % (op, k))
+            elif form == 2:
+                lines.append(mat_line(rng.choice(["load", "vreshape"]), -1, k, d))
+            else:
+                lines.append(mat_line(rng.choice(["load", "vreshape"]), k, -1, d))
+        lines.extend(["reshape -1 0", "reshape 0 -1", "reshape_mut -1 -1", "reshape -2 %d" % size, "reshape_mut %d -2" % size, "tovec"])
+    # G. triangular predicates on tall and wide matrices: a single non-zero outside the square block
+    for _ in range(40 * scale):
+        r, c = rng.choice([(rng.randint(1, 8), rng.randint(1, 8)), (9, 3), (3, 9), (17, 2), (2, 17), (8, 1), (1, 8), (5, 2), (2, 5),
+                           (4, 3), (3, 4), (6, 4)])
+        upper = rng.chance(0.5)
+        a = [[(float(rng.randint(1, 9)) if ((j >= i) if upper else (j <= i)) else rng.choice([0.0, 0.0, -0.0])) for j in range(c)] for i in range(r)]
+        cand = [(i, j) for i in range(r) for j in range(c) if ((i > j) if upper else (j > i))]
+        outside = [(i, j) for (i, j) in cand if ((i >= c) if upper else (j >= r))]
+        mode = rng.randint(0, 3)
+        if mode == 1 and cand:
+            i, j = rng.choice(cand)
+            a[i][j] = rng.choice([3.0, 5e-324, float("nan"), -1e-300])
+        elif mode >= 2 and outside:
+            i, j = rng.choice(outside)
+            a[i][j] = rng.choice([3.0, 5e-324, float("nan"), -1e-300])
+        lines.extend([mat_line("load", r, c, [x for row in a for x in row]), "is_up", "is_lo", "t", "is_up", "is_lo", "t_mut", "is_up"])
+    cover["directed:triangular_tall_wide"] = 40 * scale
+    # H. tolerance boundaries +-1 ulp: is_symmetric / PartialEq at EPSILON, close_to at tol
+    for _ in range(15 * scale):
+        for d in ulp_neighbours(EPS) + [EPS / 2, 2 * EPS]:
+            sgn = rng.choice([1.0, -1.0])
+            n = rng.choice([2, 3])
+            base = [0.0] * (n * n)
+            base[1] = 0.0
+            base[n] = sgn * d                       # |a01 - a10| = d exactly
+            lines.extend([mat_line("load", n, n, base), "is_sym", mat_line("eq", n, n, [0.0] * (n * n))])
+            lines.append("veq %s %s" % (vec([1.0, 0.0, 2.0]), vec([1.0, sgn * d, 2.0])))
+            lines.append("is_sym_u %s" % vec(base))
+            lines.append("is_design 2 %s" % vec([1.0 + sgn * d, 5.0, 1.0, 6.0]))
+        for base, diff in ((1.0, EPS), (1.0, 2 * EPS), (-1.0, -EPS), (2.0, 2 * EPS)):   # base + diff is exact
+            lines.append("veq %s %s" % (vec([base]), vec([base + diff])))
+            lines.extend([mat_line("load", 2, 2, [5.0, base, base + diff, 7.0]), "is_sym"])
+        k = rng.choice([1, 2, 3, 8, 1000])
+        a = rng.choice([1.0, -1.0, 2.0, 0.5, 1e-300, 1e300])
+        b = a * (1 + k * EPS)
+        rd = rel_diff(a, b)
+        for tol in ulp_neighbours(rd):
+            lines.append("vclose %s %s %s" % (vec([3.0, a]), vec([3.0, b]), f2h(tol)))
+            lines.append("vclose %s %s %s" % (vec([b]), vec([a]), f2h(tol)))
+            lines.extend([mat_line("load", 1, 2, [a, 3.0]), mat_line("close", 1, 2, [b, 3.0], f2h(tol))])
+        y = rng.choice([1e-9, 1e-6, 0.5, 1e-300])
+        for tol in ulp_neighbours(y):                                                    # rel_diff(0, y) = |y|
+            lines.append("vclose %s %s %s" % (vec([0.0]), vec([y * rng.choice([1, -1])]), f2h(tol)))
+            lines.append("vclose %s %s %s" % (vec([-y]), vec([-0.0]), f2h(tol)))
+    cover["directed:tolerance_boundaries"] = 15 * scale
+    # J. constructors at the size boundaries (block edges 8 / 16 / 32 / 64 and neighbours)
+    for n in BOUNDARY_N:
+        lines.extend(["eye %d" % n, "zeros %d %d" % (n, rng.choice(BOUNDARY_N)), "ones %d %d" % (rng.choice(BOUNDARY_N), n),
+                      "toeplitz %s" % vec(distinct_data(rng, n)), "diag_matrix %s" % vec(distinct_data(rng, n)),
+                      "diag_u %s" % vec(distinct_data(rng, n * n)) if n <= 33 else "eye %d" % n,
+                      "design %d %s" % (n, vec(distinct_data(rng, n * rng.randint(0, 3)))),
+                      "vandermonde %d %s" % (n, vec([rng.choice([0.0, -0.0, 1.0, -1.0, 0.5, 2.0, -2.0, 1.0 / 3.0, 1.5]) for _ in range(3)])),
+                      "vandermonde 4 %s" % vec([rng.uniform(-2, 2) for _ in range(n)])])
+        m_ = rng.choice(BOUNDARY_N[:12])
+        lines.append("%s %d %s" % (rng.choice(["transpose_u", "r2c_u", "c2r_u"]), n, vec(distinct_data(rng, n * m_))))
+    # extreme scale: exact power-of-two scaling through the in-place maps
+    for _ in range(4 * scale):
+        r, c = rng.randint(1, 8), rng.randint(1, 8)
+        lines.extend([mat_line("load", r, c, rand_data(rng, r * c, structural=False)),
+                      "arow %d %s %s" % (rng.randint(0, r - 1), f2h(2.0 ** rng.choice([500, -500, 1, -1])), f2h(0.0)),
+                      "acol %d %s %s" % (rng.randint(0, c - 1), f2h(2.0 ** rng.choice([500, -500, 1, -1])), f2h(-0.0)), "t_mut", "tovec"])
+    cover["directed:lines"] = len(lines) - n0
+
+
 def corpus():
     one = f2h(1.0)
     h = lambda xs: vec(xs)
@@ -1026,6 +1235,7 @@ def gen(rng, tier):
         lines.append("is_square_u %d" % ln)
     gen_stateless(rng, lines, cover, 2500 if tier == "quick" else 60000)
     gen_sign_strata(rng, lines, cover, 1500 if tier == "quick" else 30000)
+    gen_directed(rng, lines, cover, 1 if tier == "quick" else 8)
     cover["programs"] = nprog
     cover["max_observed_error_in_eps"] = OBS   # filled by the oracle (same dict object): calibration of VDM_C, LIN_C, ROT_C
     return lines, cover
